@@ -1,5 +1,6 @@
 use crate::engine::{Report, Tier};
 
+pub mod c01;
 pub mod c02;
 pub mod c03;
 pub mod c04;
@@ -12,6 +13,7 @@ pub mod c19;
 
 pub fn run(id: &str, tier: Tier) -> Option<Report> {
     Some(match id {
+        "C01" => c01::run(tier),
         "C02" => c02::run(tier),
         "C03" => c03::run(tier),
         "C04" => c04::run(tier),
